@@ -289,6 +289,120 @@ def _rejected_in_helper(P, F, sk, is_arg, field, bad_hi):
     return False
 
 
+def _unique_posts_cover_all(chk, P, F, sk, hit):
+    """the duplicate check covers every post, the two implicit end posts included: the pointer table that is sorted and compared
+    is filled with postlist+0 .. postlist+(N-1), N elements are sorted and N-1 neighbours compared, where N = count+2 and count
+    is the local of floor1_unpack that adds up class_dim[] (the number of explicit posts).  Expressions inside file-local helpers
+    are rewritten over the arguments at their call sites (two levels)."""
+    count_ids = set()
+    for e in F.nodes('assign'):
+        nd = F.ex[e]
+        l = F.ex[F.strip_casts(nd['c'][0])]
+        if nd['op'] == '+=' and l['k'] == 'ref' and l['decl'].get('kind') == 'var' and '.class_dim[' in sk.canon(F, F.strip_casts(nd['c'][1])):
+            count_ids.add(l['decl']['id'])
+    if len(count_ids) != 1:
+        chk.assumed(RULE, 'floor1_unpack', 'unique-posts-cover-all-posts', F.where(), 'the running count of explicit posts was not identified; not decided')
+        return
+    cid = next(iter(count_ids))
+
+    def affine(G, e, bind, depth=0):
+        """-> (symbol | None, constant) or None; symbols: 'count', 'postlist', ('loc', fn, id)"""
+        e = G.strip_casts(e)
+        nd = G.ex[e]
+        k = nd['k']
+        if k == 'paren':
+            return affine(G, nd['c'][0], bind, depth)
+        cv = common.const_val(G, e)
+        if isinstance(cv, int):
+            return (None, cv)
+        if k == 'ref':
+            d = nd['decl']
+            if G is F and d.get('id') == cid:
+                return ('count', 0)
+            if d.get('kind') == 'param' and d['id'] in bind:
+                return bind[d['id']]
+            dd = common.single_defs(G).get(d.get('id'))
+            if d.get('kind') == 'var' and dd is not None and depth < 3:
+                return affine(G, dd, bind, depth + 1)
+            return (('loc', G.name, d.get('id')), 0)
+        if k == 'member' and nd.get('field') == 'postlist':
+            return ('postlist', 0)
+        if k == 'bin' and nd['op'] in ('+', '-'):
+            a, b = affine(G, nd['c'][0], bind, depth), affine(G, nd['c'][1], bind, depth)
+            if a is None or b is None:
+                return None
+            if b[0] is None:
+                return (a[0], a[1] + (b[1] if nd['op'] == '+' else -b[1]))
+            if a[0] is None and nd['op'] == '+':
+                return (b[0], a[1] + b[1])
+            if nd['op'] == '+' and isinstance(a[0], str) and a[0] == 'postlist' and isinstance(b[0], tuple):
+                return (('postlist+', b[0]), a[1] + b[1])
+            return None
+        return None
+    facts_ = []          # (kind, function, node, affine)
+
+    def scan(G, bind, depth):
+        L = cfg.loops(G)
+        for q in G.calls('qsort'):
+            a = G.ex[q].get('c', [])
+            if len(a) > 1:
+                facts_.append(('sorted-count', G, q, affine(G, a[1], bind)))
+        for e in G.nodes('assign'):
+            nd = G.ex[e]
+            l = G.ex[G.strip_casts(nd['c'][0])]
+            if nd['op'] != '=' or l['k'] != 'sub' or not G.ex[nd['c'][1]].get('t', '').endswith('*'):
+                continue
+            r = affine(G, nd['c'][1], bind)
+            ix = affine(G, l['c'][1], bind)
+            if r is not None and isinstance(r[0], tuple) and r[0][0] == 'postlist+':
+                # sp[ix] = postlist + v + c : element number relative to the slot
+                same = ix is not None and ix[0] == r[0][1]
+                facts_.append(('fill-offset', G, e, (None, r[1] - ix[1]) if same else None))
+                # the loop that fills
+                for h, body in L.items():
+                    if G.pos[e][0] in body:
+                        t = G.blocks[h].get('term')
+                        c = G.ex[G.strip_casts(t['cond'])] if t and t.get('cond') is not None else None
+                        if c is not None and c['k'] == 'bin' and c['op'] == '<':
+                            facts_.append(('fill-count', G, t['cond'], affine(G, c['c'][1], bind)))
+        for (G2, h, c, s_) in hit:
+            if G2 is G:
+                t = G.blocks[h].get('term')
+                cn = G.ex[G.strip_casts(t['cond'])] if t and t.get('cond') is not None else None
+                if cn is not None and cn['k'] == 'bin' and cn['op'] == '<':
+                    facts_.append(('compared-count', G, t['cond'], affine(G, cn['c'][1], bind)))
+        if depth >= 2:
+            return
+        for q in G.calls():
+            d = G.ex[q]['callee'].get('d')
+            H = P.get(d, G) if d else None
+            if H is None or not H.static or H.entry is None or H is G:
+                continue
+            b2 = {}
+            for i_, a in enumerate(G.ex[q].get('c', [])):
+                if i_ < len(H.params):
+                    v = affine(G, a, bind)
+                    if v is not None:
+                        b2[H.params[i_]['id']] = v
+            scan(H, b2, depth + 1)
+    scan(F, {}, 0)
+    kinds = {k for k, *_ in facts_}
+    if not {'sorted-count', 'fill-offset', 'compared-count'} <= kinds:
+        chk.assumed(RULE, 'floor1_unpack', 'unique-posts-cover-all-posts', F.where(),
+                    f'the sort of the post pointers was not recognised ({sorted(kinds)}); not decided')
+        return
+    bad = []
+    for kind, G, e, v in facts_:
+        want = (None, 0) if kind == 'fill-offset' else ('count', 2)
+        if v != want:
+            bad.append((G, e, f'{kind} is {v} in {G.name}, expected {want}'))
+    chk.ob(RULE, 'floor1_unpack', 'unique-posts-cover-all-posts', not bad, bad[0][0].where(bad[0][1]) if bad else F.where(),
+           (f'{len(facts_)} facts: the pointer table starts at postlist[0]; count+2 posts are sorted and compared -- the two implicit '
+            'end posts take part') if not bad else
+           (bad[0][2] + ': a post that repeats an end post (or one left out of the sort) passes the check and gives a zero-length '
+            'segment: division by zero in render_line / render_point'))
+
+
 def g_floor1_unique_posts(chk, P, D, sk):
     import k2
     F = P.need('floor1_unpack')
@@ -305,6 +419,8 @@ def g_floor1_unique_posts(chk, P, D, sk):
             H = P.get(d, G) if d else None
             if (d == 'qsort' or (H is not None and P.key(H) in sorters)) and G.pos[q][0] in dom[h]:
                 ok = True
+    if ok:
+        _unique_posts_cover_all(chk, P, F, sk, hit)
     chk.ob(RULE, 'floor1_unpack', 'unique-posts', ok, hit[0][0].where(hit[0][2]) if hit else F.where(),
            'adjacent elements of the sorted post list are compared for every post and equality is rejected before the success '
            'return: x1-x0 >= 1 in render_point/render_line' if ok else
